@@ -280,8 +280,10 @@ def custom_integrals(r, m):
     return "symm custom %d %s" % (len(polys), " ".join(polys))
 
 
-def core_script(m, order=0, symm="default", dump=True, shift=None, early=False):
+def core_script(m, order=0, symm="default", dump=True, shift=None, early=False, stress=False):
     lines = list(m.build)
+    if stress:
+        lines.insert(0, "stress")     # every prepare()/compute() twice, copies, re-evaluation (see harness/pipe.cpp)
     if dump:
         lines.append("dumplattice")
     if early:
@@ -494,7 +496,10 @@ def numeric_campaign(ctx, props, want, n_quick, n_thorough, max_modes_quick=4, m
             beta = r.choice(list(betas))
             order = r.below(2)
             shift = r.choice(list(shifts)) if shifts and r.chance(1, 3) else None
-            s = core_script(m, order=order, symm=symm_line, shift=shift)
+            stress = r.chance(1, 3)
+            s = core_script(m, order=order, symm=symm_line, shift=shift, stress=stress, early=r.chance(1, 6))
+            if stress:
+                m.kinds.add("stress_mode")
             if shift is not None:
                 m.kinds.add("energy_offset")
             s += observables_script(r, m, beta, M, want=want, ngf=ngf, nchi=(nchi if M <= 3 else 1), nsusc=nsusc,
